@@ -966,6 +966,10 @@ impl metrique::CloseValue for Holder {
 pub struct Link {
     idx: u64,
     next: Holder,
+    /// a force-flush guard of this very entry, kept inside it (released when the entry is closed and dropped, i.e.
+    /// in the middle of its own emission)
+    #[metrics(ignore)]
+    own_guard: Option<ForceFlushGuard>,
 }
 
 #[derive(Clone)]
@@ -1002,6 +1006,18 @@ impl EntrySink<RootMetric<Marker>> for MarkerSink {
 }
 
 fn chain_part(sink: &LinkSink, depth: u64, panics: u64, base: u64) {
+    // an entry that holds one of its own force-flush guards (recorded as 900 + base / 100): the owner goes first, a
+    // flush guard keeps the entry back, a second force-flush guard releases it - and the emission drops the first
+    {
+        let mut m = Link { idx: 900 + base / 100, next: Holder(None), own_guard: None }.append_on_drop(sink.clone());
+        let keep = m.flush_guard();
+        m.own_guard = Some(m.force_flush_guard());
+        let trigger = m.force_flush_guard();
+        drop(m);
+        detsim::yield_point();
+        drop(trigger);
+        drop(keep);
+    }
     // a field-less marker entry (recorded as 500_000 + base), with a flush guard that outlives the owner
     {
         let m = Marker::default().append_on_drop(MarkerSink(sink.0.clone(), 500_000 + base));
@@ -1013,11 +1029,11 @@ fn chain_part(sink: &LinkSink, depth: u64, panics: u64, base: u64) {
     {
         // entries whose append panics, one after the other on this thread
         for k in 0..panics {
-            let e = Link { idx: 1000 + base + k, next: Holder(None) }.append_on_drop(sink.clone());
+            let e = Link { idx: 1000 + base + k, next: Holder(None), own_guard: None }.append_on_drop(sink.clone());
             let _ = std::panic::catch_unwind(std::panic::AssertUnwindSafe(move || drop(e)));
         }
         // a chain: entry i holds the flush guard of entry i+1 and releases it while being closed
-        let mut owners: Vec<AppendAndCloseOnDrop<Link, LinkSink>> = (0..depth).map(|i| Link { idx: base + i, next: Holder(None) }.append_on_drop(sink.clone())).collect();
+        let mut owners: Vec<AppendAndCloseOnDrop<Link, LinkSink>> = (0..depth).map(|i| Link { idx: base + i, next: Holder(None), own_guard: None }.append_on_drop(sink.clone())).collect();
         for i in (0..owners.len().saturating_sub(1)).rev() {
             let g = owners[i + 1].flush_guard();
             owners[i].next = Holder(Some(g));
@@ -1105,6 +1121,14 @@ impl Scenario for UowChain {
                 let (depth, base) = (ju(p, "depth", 1), ju(p, "base", 0));
                 max_depth = max_depth.max(depth);
                 panics += ju(p, "panics", 0);
+                let selfg = got.iter().filter(|x| **x == 900 + base / 100).count();
+                if selfg != 1 {
+                    r.violation = Some(Violation::new(
+                        if selfg == 0 { "never_appended" } else { "appended_twice" },
+                        format!("an entry holding one of its own force-flush guards was appended {selfg} times after its owner and another force-flush guard were dropped"),
+                    ));
+                    break 'parts;
+                }
                 let markers = got.iter().filter(|x| **x == 500_000 + base).count();
                 if markers != 1 {
                     r.violation = Some(Violation::new(
